@@ -226,7 +226,8 @@ fn targets() -> Vec<Tgt> {
                 Expr::Path(p) if p.qself.is_none() && p.path.get_ident().is_some() => Some(canon_of(e)),
                 _ => None,
             },
-            quoted: Some(q::<syn::Ident>),
+            // the same grammar as the bare form: a one-segment mod-style path (so `self`, `crate` .. too)
+            quoted: Some(|s| syn::parse::Parser::parse_str(syn::Path::parse_mod_style, s).ok().and_then(|p| p.get_ident().map(|i| canon_of(i)))),
             list: None,
             word_ok: false,
             whole: None,
@@ -238,7 +239,8 @@ fn targets() -> Vec<Tgt> {
                 Expr::Path(p) if p.qself.is_none() && p.path.get_ident().is_some() => Some(canon_of(e)),
                 _ => None,
             },
-            quoted: Some(q::<syn::Ident>),
+            // the same grammar as the bare form: a one-segment mod-style path (so `self`, `crate` .. too)
+            quoted: Some(|s| syn::parse::Parser::parse_str(syn::Path::parse_mod_style, s).ok().and_then(|p| p.get_ident().map(|i| canon_of(i)))),
             list: None,
             word_ok: false,
             whole: None,
@@ -349,7 +351,19 @@ fn targets() -> Vec<Tgt> {
         lit_kind!("LitByteStr", syn::LitByteStr, Lit::ByteStr),
         lit_kind!("LitChar", syn::LitChar, Lit::Char),
         lit_kind!("LitBool", syn::LitBool, Lit::Bool),
-        lit_kind!("Literal", proc_macro2::Literal, Lit::Verbatim),
+        Tgt {
+            // any literal token: `true` / `false` are identifiers and a negative number is two tokens
+            name: "Literal",
+            conv: |m| <proc_macro2::Literal as FromMeta>::from_meta(m).map(|v| v.tk()),
+            bare: |e| match e {
+                Expr::Lit(l) if !matches!(l.lit, Lit::Bool(_)) && !canon_of(e).starts_with('-') => Some(canon_of(e)),
+                _ => None,
+            },
+            quoted: None,
+            list: None,
+            word_ok: false,
+            whole: None,
+        },
         vec_lit_kind!("Vec<LitInt>", syn::LitInt, Lit::Int),
         vec_lit_kind!("Vec<LitFloat>", syn::LitFloat, Lit::Float),
         vec_lit_kind!("Vec<LitStr>", syn::LitStr, Lit::Str),
@@ -557,6 +571,11 @@ fn prepare(frag: &str, rng: &mut Rng) -> Vec<Prepared> {
     if rng.chance(1, 3) {
         push(format!("x({frag})"), "list", false);
     }
+    if rng.chance(1, 8) && syn::parse_str::<Meta>(&format!("extra = {frag}")).is_ok() {
+        // a named item among the list's items is not an element, whatever its value
+        push(format!("x({frag}, extra = {frag})"), "list-with-named-item", false);
+        push(format!("x(extra = {frag})"), "list-with-named-item", false);
+    }
     if rng.chance(1, 10) {
         push("x".to_string(), "word", false);
     }
@@ -629,7 +648,7 @@ fn judge_fragment(ts: &[Tgt], frag: &str, family: &'static str, rng: &mut Rng, c
         let frag_is_str = syn::parse_str::<syn::LitStr>(frag).is_ok();
         if let (Some(b), Some(qv), false) = (&bare, &quoted, frag_is_str) {
             // string-literal targets keep the quotes; they have no quoted spelling of their own
-            if b != qv && !["Lit", "LitStr", "Meta", "parse_expr::preserve_str_literal"].contains(&t.name) {
+            if b != qv && !["Lit", "LitStr", "Literal", "Meta", "parse_expr::preserve_str_literal"].contains(&t.name) {
                 c.violation(
                     format!("C13:{}:bare-quoted-disagree", t.name),
                     format!("{}: bare `{frag}` gives `{b}`, quoted gives `{qv}`", t.name),
